@@ -68,7 +68,7 @@ impl Ctx {
     fn chaff(&mut self) {
         if self.prop == "scratch" || self.prop == "C20" || self.n_scen % 3 != 1 { return; }
         let kinds = chaff_encodings();
-        let k = (fnv(&self.scenario) % (kinds.len() as u64 + 2)) as usize;
+        let k = (fnv(&self.scenario) % (kinds.len() as u64 + 4)) as usize;
         if k < kinds.len() {
             let r = self.assign(&format!("decode {}", kinds[k].1));
             let ok = self.is_ok(&r);
@@ -78,9 +78,16 @@ impl Ctx {
         } else if k == kinds.len() {
             let a = self.assign("leaf 01"); let _ = self.assign(&format!("add {} {}", a, a));
             self.count("chaff:add-non-assertion");
-        } else {
+        } else if k == kinds.len() + 1 {
             let a = self.assign("leaf 6161"); let _ = self.assign(&format!("unwrap {}", a)); let _ = self.assign(&format!("uncompress {}", a));
             self.count("chaff:unwrap-uncompress-leaf");
+        } else if k == kinds.len() + 2 {
+            // a salted add that is refused, and one that has nothing to add: neither draws a salt, neither may leave a request behind
+            let a = self.assign("leaf 02"); let _ = self.assign(&format!("add_salted_refused {} {}", a, a));
+            self.count("chaff:salted-add-refused");
+        } else {
+            let a = self.assign("leaf 03"); let _ = self.assign(&format!("add_salted_none {}", a));
+            self.count("chaff:salted-add-of-nothing");
         }
     }
 
